@@ -37,7 +37,7 @@ def struct_digest(st):
                                    default=str).encode()).hexdigest()[:12]
 
 
-def solve_campaign(ctx, n_systems, gen_kw=None, case_kw=None, filt=None, variants=1, post=None):
+def solve_campaign(ctx, n_systems, gen_kw=None, case_kw=None, filt=None, variants=1, post=None, matrix=0):
     """generate systems, solve, validate.  filt(state_dict) selects structures of interest;
     post(system, case list, rng, next id) may append further cases for the same system"""
     res = Result()
@@ -61,6 +61,25 @@ def solve_campaign(ctx, n_systems, gen_kw=None, case_kw=None, filt=None, variant
             if post:
                 post(s, cases, rng)
         n += 1
+    if matrix:
+        import matrix as _mx
+        mstates, mcnt = _mx.matrix_states(ctx)
+        res.mc.append(mcnt)
+        picked = mstates if len(mstates) <= matrix else rng.sample(mstates, matrix)
+        for st in picked:
+            try:
+                s = _mx.build(st, rng)
+            except Exception:
+                continue
+            kw = dict(case_kw(rng, s) if case_kw else {})
+            rr = kw.pop("rail_rep", False)
+            c = drv_solve.solve_case(s, len(cases), rail_rep=rr, **kw)
+            c["matrix"] = {k: st[k] for k in ("kind", "form", "sign", "pos", "ph", "mode")}
+            cases.append(c)
+            structs.add(struct_digest(c["st"]))
+            if post:
+                post(s, cases, rng)
+        res.extra["matrix_states"] = len(picked)
     validate_cases(ctx, res, cases)
     res.extra["systems"] = n
     res.extra["distinct_structures"] = len(structs)
@@ -94,9 +113,9 @@ STD_ASSUME = ["numbers are compared in exact decimal arithmetic with the two tol
               "projection of System._g / _g.attrs is the abstract state the relations are evaluated on"]
 
 
-def _run(ctx, prop, n_q, n_t, rule, gen_kw=None, case_kw=None, filt=None, variants=1, post=None, extra_fixed=(), prefix=None):
+def _run(ctx, prop, n_q, n_t, rule, gen_kw=None, case_kw=None, filt=None, variants=1, post=None, extra_fixed=(), prefix=None, matrix=(0, 0)):
     n = n_q if ctx.quick else n_t
-    res, cases = solve_campaign(ctx, n, gen_kw, case_kw, filt, variants, post)
+    res, cases = solve_campaign(ctx, n, gen_kw, case_kw, filt, variants, post, matrix=matrix[0] if ctx.quick else matrix[1])
     if extra_fixed:
         extra = []
         for b in extra_fixed:
@@ -116,14 +135,14 @@ def run_c01(ctx):
                 "numeric instantiations (random in range, constant and 1-D/2-D tabulated parameters, both polarities, "
                 "1-3 sources, mux with 1-4 inputs, phases) of TLC-generated construction histories; every component row "
                 "of every phase is held to C01.Link.* and C01.Law.*; distinct_nontrivial = distinct structures",
-                gen_kw=dict(neg=0.25, tables=0.3), case_kw=std_case_kw, extra_fixed=[_f1_system])
+                gen_kw=dict(neg=0.3, tables=0.4), case_kw=std_case_kw, extra_fixed=[_f1_system], matrix=(400, 2000))
 
 
 def run_c02(ctx):
     return _run(ctx, "C02", 150, 3000,
                 "as C01 with ta in {-40,0,25,85}, random thermal resistances, loads with loss true/false; every row is held to "
                 "the accounting clauses (power, loss range, efficiency, row energy, thermal) and every phase to the system balance",
-                gen_kw=dict(neg=0.2, tables=0.25), case_kw=std_case_kw, extra_fixed=[_f1_system])
+                gen_kw=dict(neg=0.3, tables=0.4), case_kw=std_case_kw, extra_fixed=[_f1_system], matrix=(400, 2000))
 
 
 def has_mux(sysst):
@@ -134,14 +153,14 @@ def run_c04(ctx):
     return _run(ctx, "C04", 150, 3000,
                 "systems with 0 V sources, phase-inactive sources / converters / regulators / switches / muxes and muxes without "
                 "live input; every row below a dead element must be exactly zero, sleeping components draw exactly iis",
-                gen_kw=dict(neg=0.15, zero_src=0.3, tables=0.1), case_kw=std_case_kw)
+                gen_kw=dict(neg=0.15, zero_src=0.3, tables=0.1), case_kw=std_case_kw, matrix=(200, 2000))
 
 
 def run_c05(ctx):
     return _run(ctx, "C05", 140, 2500,
                 "systems with a PMux (1-4 inputs, fed from sources / components / the same source, scalar and per-input rs, "
                 "0 V and phase-inactive inputs); mux rows are held to the C05 clauses",
-                gen_kw=dict(neg=0.15, zero_src=0.3, tables=0.1), case_kw=std_case_kw, filt=has_mux)
+                gen_kw=dict(neg=0.15, zero_src=0.3, tables=0.2), case_kw=std_case_kw, filt=has_mux, matrix=(200, 2000))
 
 
 def has_phases(sysst):
@@ -169,7 +188,7 @@ def run_c06(ctx):
                 "systems with 2-3 system phases and TLC-chosen per-component phase configurations (lists for sources/converters/"
                 "regulators/switches/mux, tables for loads); every phase's rows are validated with that phase's behaviour; "
                 "solve(phase=p) is compared with the all-phase table; an unknown phase must raise ValueError",
-                gen_kw=dict(neg=0.1, tables=0.15), case_kw=std_case_kw, filt=has_phases, post=c06_post)
+                gen_kw=dict(neg=0.1, tables=0.15), case_kw=std_case_kw, filt=has_phases, post=c06_post, matrix=(250, 2000))
 
 
 def run_c07(ctx):
